@@ -33,6 +33,7 @@ def check(c: Check):
     clause_e(c)
     clause_f(c)
     clause_g(c)
+    clause_h(c)
 
 
 # ---------------------------------------------------------------- a
@@ -587,3 +588,69 @@ def clause_g(c: Check):
                 c.bad('C09-g', 'here-document/result', 'the here-document is not built from its lines (%s)' % util.describe(p.val),
                       f.loc())
     c.floor('C09-g', 'completed here-documents analysed', n_ret, 2)
+
+
+# ---------------------------------------------------------------- h
+def clause_h(c: Check):
+    """a quoted word is never an option: the two ways an option token is recognised both exclude quoted tokens -
+    (1) option_parsing.matches is given the token's source string (quotes included), (2) the token matcher built by
+    is_option demands an unquoted token, and _Equals.matches honours that demand"""
+    ix, fo = c.ix, c.fo
+    om = ix.func('exactly_lib.util.cli_syntax.option_parsing:matches')
+    tsp = ix.module('exactly_lib.section_document.element_parsers.token_stream_parser')
+    n = 0
+    for node in ast.walk(tsp.tree):
+        if isinstance(node, ast.Call) and len(node.args) == 2 and ix.callee(tsp, tsp.enclosing_func(node), node) == om:
+            n += 1
+            a = node.args[1]
+            f = tsp.enclosing_func(node)
+            a = util.resolve_temp(f, a)
+            c.expect(isinstance(a, ast.Attribute) and a.attr == 'source_string', 'C09-h',
+                     'option-match@%s' % (f.key if f else tsp.name),
+                     'an option is matched against %s, not against the source string of the token (a quoted word that '
+                     'spells an option would be taken for the option)' % unparse(a), '%s:%d' % (tsp.relpath, node.lineno))
+    c.floor('C09-h', 'option matches in the token parser', n, 4)
+    TM = 'exactly_lib.util.parse.token_matchers'
+    eq = ix.cls(TM + ':_Equals')
+    init = ix.class_member(eq, '__init__')
+    for fname in ('is_option', 'is_unquoted_and_equals'):
+        f = ix.func(TM + ':' + fname)
+        ok = False
+        for p in util.func_paths(ix, fo, f, Hooks()):
+            con = util.constructed(ix, p.val) if p.kind == 'return' else None
+            if con is not None and con[0] == eq.key:
+                names = [p_.arg for p_ in init.positional_params()[1:]]
+                given = dict(zip(names, con[1]))
+                given.update(con[2])
+                flag = given.get('must_be_unquoted')
+                if flag is None:
+                    pos = init.positional_params()
+                    for p_, d in zip(pos[len(pos) - len(init.node.args.defaults):], init.node.args.defaults):
+                        if p_.arg == 'must_be_unquoted':
+                            flag = K(fo.fold(init.module, None, d))
+                ok = isinstance(flag, K) and flag.v is True
+            elif con is not None:
+                # another matcher class: judged by its own matches method below
+                ok = con[0].endswith('_IsUnquotedAndEqualsAny')
+        c.expect(ok, 'C09-h', TM.split('.')[-1] + '.' + fname,
+                 '%s builds a token matcher that does not demand an unquoted token' % fname, f.loc())
+    # _Equals.matches: decision table over (must_be_unquoted, token quoted)
+    tok = ix.cls(TK + ':Token')
+    tt = fo.enum_members(ix.cls(TK + ':TokenType'))
+    mt = ix.class_member(eq, 'matches')
+    for must in (True, False):
+        for quoted in (True, False):
+            it = Interp(ix, fo, Hooks())
+            st = State()
+            obj = it.new_obj(eq)
+            st.heap[(obj.oid, 'must_be_unquoted')] = K(must)
+            st.heap[(obj.oid, 'value')] = K('-opt')
+            rec = Record(tok, {'token_type': tt['QUOTED'] if quoted else tt['PLAIN'], 'string': '-opt',
+                               'source_string': "'-opt'" if quoted else '-opt'})
+            res = set()
+            for p in it.run_function(mt, {mt.positional_params()[1].arg: K(rec)}, st, recv=obj):
+                res.add(p.val.v if p.kind == 'return' and isinstance(p.val, K) else '?')
+            want = not (must and quoted)
+            c.expect(res == {want}, 'C09-h', '_Equals.matches/must_be_unquoted=%s/quoted=%s' % (must, quoted),
+                     'a %s token spelling the value matches=%s with must_be_unquoted=%s (expected %s)' % (
+                         'quoted' if quoted else 'plain', sorted(map(str, res)), must, want), mt.loc())
